@@ -6,6 +6,10 @@ EXTENDS Quote, TLC, Json
 
 CONSTANTS MaxLen, MaxPair, Bug, Emit
 
+(* strings longer than 3 are built over the classes that interact: letters,  *)
+(* the identifier separators, the quoting characters, one named and one    *)
+(* hex escape, @ and space                                                 *)
+LongChars == {"a", "n", "uid", "dash", "dot", "plus", "dq", "bs", "nl", "esc", "at", "sp"}
 PairChars == {"a", "dash", "at", "dq", "bs", "sp"}
 
 VARIABLE st      \* [t |-> "str", s |-> string] | [t |-> "pair", n |-> name, r |-> remote]
@@ -13,7 +17,9 @@ VARIABLE st      \* [t |-> "str", s |-> string] | [t |-> "pair", n |-> name, r |
 Init == \/ st = [t |-> "str", s |-> <<>>]
         \/ \E c, d \in PairChars : st = [t |-> "pair", n |-> <<c>>, r |-> <<d>>]
 Next == \/ /\ st.t = "str" /\ Len(st.s) < MaxLen
-           /\ \E c \in Chars : st' = [st EXCEPT !.s = Append(st.s, c)]
+           /\ \E c \in Chars :
+                /\ Len(st.s) >= 3 => (c \in LongChars /\ \A i \in 1..Len(st.s) : st.s[i] \in LongChars)
+                /\ st' = [st EXCEPT !.s = Append(st.s, c)]
         \/ /\ st.t = "pair" /\ Len(st.n) < MaxPair
            /\ \E c \in PairChars : st' = [st EXCEPT !.n = Append(st.n, c)]
         \/ /\ st.t = "pair" /\ Len(st.r) < MaxPair
